@@ -162,6 +162,10 @@ def _both_conc(a, b):
 def r_add(a, b):
     if _both_conc(a, b):
         return a + b
+    if not isinstance(a, SV) and a == 0 and not isinstance(a, bool):
+        return b
+    if not isinstance(b, SV) and b == 0 and not isinstance(b, bool):
+        return a
     if is_intlike(a) and is_intlike(b):
         return SV(term(a) + term(b), 'int')
     return SV(term(a, True) + term(b, True), 'real')
@@ -170,6 +174,8 @@ def r_add(a, b):
 def r_sub(a, b):
     if _both_conc(a, b):
         return a - b
+    if not isinstance(b, SV) and b == 0 and not isinstance(b, bool):
+        return a
     if is_intlike(a) and is_intlike(b):
         return SV(term(a) - term(b), 'int')
     return SV(term(a, True) - term(b, True), 'real')
